@@ -74,6 +74,93 @@ def lru_events(fn, lf):
     return out
 
 
+def pop_roles(fn, lf):
+    """which node pop() removes and which it reads on one path, by the role of the iterator involved:
+    -> (removed roles, read roles); a role is "last", "begin", "end" or "?" """
+    roles = {}
+
+    def lcall(e, names):
+        e = match.strip_conv(e)
+        c = match.call_named(e, names) if e is not None and "callee" in e else None
+        if c is not None and c.get("member_call") and match.this_field(kids(c)[0]) == "list_":
+            return c
+        return None
+
+    def role(e):
+        e = match.strip_conv(e)
+        while e is not None and e["k"] in ("ParenExpr", "CXXConstructExpr", "MaterializeTemporaryExpr", "CXXBindTemporaryExpr", "ExprWithCleanups") and kids(e):
+            e = match.strip_conv(kids(e)[0])
+        if e is None:
+            return "?"
+        if lcall(e, ("end", "cend")):
+            return "end"
+        if lcall(e, ("begin", "cbegin")):
+            return "begin"
+        d = ref_of(e)
+        if d is not None:
+            return roles.get(d, "?")
+        if "callee" in e and e["callee"]["name"] == "prev" and kids(e):
+            args = [a for a in kids(e) if a is not None and a["k"] != "DefaultArg"]
+            if len(args) == 1 or (len(args) == 2 and const_int(args[1]) == 1):
+                return "last" if role(args[0]) == "end" else "?"
+        u = match.unop(e, ("--",))
+        if u and not u[2] if u and len(u) > 2 else False:
+            return "last" if role(u[1]) == "end" else "?"
+        return "?"
+    removed, read = [], []
+
+    def scan_reads(e):
+        for z in ir.walk(e):
+            d_ = match.deref_of(z) if z["k"] in ("UnaryOperator", "CXXOperatorCallExpr") else None
+            if d_ is not None:
+                read.append(role(d_))
+            f = match.field_of(z) if z["k"] == "MemberExpr" else None
+            if f and z.get("arrow") and ref_of(f[0]) in roles:
+                read.append(roles[ref_of(f[0])])
+            if lcall(z, ("back",)):
+                read.append("last")
+            if lcall(z, ("front",)):
+                read.append("begin")
+    for ev in lf["events"]:
+        if ev[0] == "decl":
+            v = ev[1]
+            if kids(v) and kids(v)[0] is not None:
+                ty = v.get("ty") or ""
+                if "iterator" in ty.lower():
+                    roles[v["did"]] = role(kids(v)[0])
+                else:
+                    scan_reads(kids(v)[0])
+            continue
+        if ev[0] != "expr":
+            continue
+        e = strip_casts(ev[1])
+        u = match.unop(e, ("--", "++"))
+        if u and ref_of(u[1]) in roles:
+            roles[ref_of(u[1])] = "last" if (u[0] == "--" and roles[ref_of(u[1])] == "end") else "?"
+            continue
+        c = lcall(e, ("pop_back",))
+        if c:
+            removed.append("last")
+            continue
+        c = lcall(e, ("pop_front",))
+        if c:
+            removed.append("begin")
+            continue
+        c = lcall(e, ("erase",))
+        if c:
+            removed.append(role(kids(c)[1]) if len(kids(c)) == 2 else "?")
+            continue
+        b = match.binop(e, ("=",))
+        if b and ref_of(b[1]) in roles:
+            roles[ref_of(b[1])] = role(b[2])
+            continue
+        scan_reads(e)
+    st = lf["stop"]
+    if st[0] == "return" and st[1] and st[1][0] is not None:
+        scan_reads(st[1][0])
+    return removed, read
+
+
 def lru_atomize(fn):
     def atomize(n, run):
         b = match.binop(n, ("==", "!="))
@@ -133,7 +220,8 @@ def check_lru(ck, tu):
                         ck.violation("LRU-COUPLED", fn.qname, fn.name + ":order", "the index entry is created before the list node it must point to", fn.loc)
                         bad = True
                 if fn.name == "pop":
-                    if not (kinds.count("list.pop_back") + kinds.count("list.pop_front") == 1 and me == 1):
+                    removed, read = pop_roles(fn, lf)
+                    if not (len(removed) == 1 and me == 1):
                         ck.violation("LRU-COUPLED", fn.qname, "pop:pair", "pop() must remove exactly one list node and its index entry", fn.loc)
                         bad = True
                 if fn.name == "clear" and not ("list.clear" in kinds and "map.clear" in kinds):
@@ -142,14 +230,18 @@ def check_lru(ck, tu):
                 # ---- end roles: MRU = front, eviction = back
                 for a, b in evs:
                     if a in ("list.push_back",) or (a == "list.splice" and b not in ("begin", "cbegin")) or (a == "map.insert" and lp and b not in ("begin",)) \
-                            or a == "list.pop_front":
+                            or (a == "list.pop_front" and fn.name != "pop"):
                         ck.violation("LRU-ENDS", fn.qname, "%s:%s" % (fn.name, a), "%s uses the wrong end of the recency list (most recent = front, evicted = back): %s %s"
                                      % (fn.name, a, b or ""), fn.loc)
                         bad = True
                 if fn.name == "pop":
-                    ends = [b for a, b in evs if a == "list.end"]
-                    decs = [b for a, b in evs if a == "iter--"]
-                    if not (ends and decs and ends[0] == decs[0]):
+                    if "?" in removed or "?" in read or not read:
+                        raise dtable.Undecidable("%s: which node pop() reads / removes is not understood (removed %s, read %s)" % (fn.loc, removed, read))
+                    if any(r != "last" for r in removed):
+                        ck.violation("LRU-ENDS", fn.qname, "pop:list.pop_front", "pop() removes the %s of the recency list (most recent = front, evicted = back)"
+                                     % ("front" if "begin" in removed else "end()"), fn.loc)
+                        bad = True
+                    elif any(r != "last" for r in read):
                         ck.violation("LRU-ENDS", fn.qname, "pop:last", "pop() does not read the last element of the recency list (--end())", fn.loc)
                         bad = True
                 if fn.name in ("touch", "touch_if_exists", "get_touch") and found and "list.splice" not in kinds:
